@@ -76,7 +76,9 @@ JudgeSearch(r, ln) ==
 \* ---- C02
 \* {"a":"rewrite","f":F,"sid":n,"mode":"idx"|"noidx","ix":{key:slope},"rf":RF,"m":[ids matched by the REAL entry test on rf],"mo":o}
 RewriteL1(r) == r.mo # 2 /\ ResSet(r.m, r.mo) = {i \in DOMAIN db : Match(r.f, db[i], r.sid)}
-RewriteL2(r) == WF(r.rf) /\ r.rf = (IF r.mode = "idx" THEN Rewrite(r.f, r.ix, r.sid) ELSE RewriteNoIdx(r.f, r.sid))
+\* with index metadata: anchored rewrite (current code, b91e119) or the plain rewrite (code before it)
+RewriteL2(r) == WF(r.rf) /\ (IF r.mode = "idx" THEN r.rf = RewriteFixed(r.f, r.ix, r.sid) \/ r.rf = Rewrite(r.f, r.ix, r.sid)
+                                              ELSE r.rf = RewriteNoIdx(r.f, r.sid))
 
 Judge == l <= Len(Rec) =>
   LET r == Rec[l] IN
